@@ -87,6 +87,15 @@ func c20Type(env *core.Env, tn string) {
 	if string(t1) != tn || string(r1.ProtoReflect().Descriptor().Name()) != tn || r2 == nil || string(resource.TypeOf(r2)) != tn {
 		env.Violatef("C20/type-of/"+tn, "new %s reports type %q", tn, t1)
 	}
+	// every creation gives a new, empty resource of its own
+	var r3, r4 fhir.Resource
+	env.Guard("resource.New again "+tn, func() { r3 = resource.New(resource.Type(tn)); r4, _ = resource.NewFromString(tn) })
+	env.Eval(2)
+	if r3 == nil || r4 == nil || r3 == r2 || r3 == r1 || r4 == r1 || r4 == r2 || r1 == r2 {
+		env.Violatef("C20/new/shared-instance/"+tn, "creating %s twice gave the same instance (or none): New=%p New=%p NewFromString=%p NewFromString=%p", tn, r2, r3, r1, r4)
+	} else if proto.Size(r3) != 0 || proto.Size(r4) != 0 || proto.Size(r2) != 0 {
+		env.Violatef("C20/new/not-empty/"+tn, "a newly created %s is not empty", tn)
+	}
 	if !resource.IsType(tn) {
 		env.Violatef("C20/is-type/"+tn, "resource.IsType(%q) = false", tn)
 	}
